@@ -441,7 +441,7 @@ def directory_index(req, path):  # noqa: C901
 
     for item in index:
         # dot files
-        if item[0] == "." and item[1] != ".":
+        if item[0] == "." and item != "..":
             continue
         # bakup files (~)
         if item[-1] == "~":
